@@ -309,7 +309,6 @@ func (d *CompositeSequenceDFA) SearchAt(haystack []byte, at int) (int, int, bool
 				if lastAcceptEnd > 0 {
 					return matchStart, lastAcceptEnd, true
 				}
-				start = pos - 1 // Skip: dead byte at pos, outer loop start++ → pos
 				goto nextStart
 			}
 			if accepting[state] {
@@ -324,7 +323,6 @@ func (d *CompositeSequenceDFA) SearchAt(haystack []byte, at int) (int, int, bool
 				if lastAcceptEnd > 0 {
 					return matchStart, lastAcceptEnd, true
 				}
-				start = pos // Skip: dead byte at pos+1
 				goto nextStart
 			}
 			if accepting[state] {
@@ -339,7 +337,6 @@ func (d *CompositeSequenceDFA) SearchAt(haystack []byte, at int) (int, int, bool
 				if lastAcceptEnd > 0 {
 					return matchStart, lastAcceptEnd, true
 				}
-				start = pos + 1 // Skip: dead byte at pos+2
 				goto nextStart
 			}
 			if accepting[state] {
@@ -354,7 +351,6 @@ func (d *CompositeSequenceDFA) SearchAt(haystack []byte, at int) (int, int, bool
 				if lastAcceptEnd > 0 {
 					return matchStart, lastAcceptEnd, true
 				}
-				start = pos + 2 // Skip: dead byte at pos+3
 				goto nextStart
 			}
 			if accepting[state] {
@@ -391,8 +387,9 @@ func (d *CompositeSequenceDFA) SearchAt(haystack []byte, at int) (int, int, bool
 			return matchStart, lastAcceptEnd, true
 		}
 
-		// Skip: all bytes up to pos already processed, advance outer loop
-		start = pos - 1
+		// A failed attempt says nothing about the starts between start and pos
+		// (for [ax]+[by]+[ax]+[cz]+ on "abbabac" the attempt from 0 dies at 4,
+		// the match starts at 3): try the next position.
 
 	nextStart:
 	}
